@@ -243,53 +243,6 @@ theorem snapshot_run_safe_now : Conforms {} {} snapRun ∧ ∀ n, safeB (run {} 
 
 /-! ## the four remaining statements, each under the condition it needs -/
 
-/-- after `take`, every log promise still owed lies below the first index of the Ready's entries -/
-theorem take_not_taken_back (c : Cfg) (s : State) (rd : Ready) (p : Promise) (hp : p ∈ (take c s rd).owed) (hv : ∀ t x, p = .vote t x → x ≠ 0) :
-    NotTakenBack rd.ents p := by
-  have hf : released rd p = false := by simpa [take] using (List.mem_filter.mp hp).2
-  cases p with
-  | term t => trivial
-  | vote t x => exact hv t x rfl
-  | snap i => trivial
-  | ent x =>
-    intro e he
-    cases hre : rd.ents with
-    | nil => rw [hre] at he; simp at he
-    | cons f r => rw [hre] at he; simp at he; subst he; simp [released, hre] at hf; omega
-  | reach i =>
-    intro e he
-    cases hre : rd.ents with
-    | nil => rw [hre] at he; simp at he
-    | cons f r => rw [hre] at he; simp at he; subst he; simp [released, hre] at hf; omega
-
-/-- **`wal.Save` of the arm (`walWrite`), torn anywhere, keeps `Safe`** when, relative to what a restart would read from everything written so
-    far (`v`): the entries are consecutive, start above its snapshot and at most one past its end; the hard state keeps its term and vote
-    promises and does not lower its commit index; and the promises owed are the ones raft has not taken back -/
-theorem walWrite_safe (c : Cfg) (s : State) (h : Safe s) (v : View) (hv : replayRecs s.disk.all s.disk.files = some v)
-    (hch : Chain s.rd.ents) (hfirst : ∀ e ∈ s.rd.ents.head?, v.snap.index < e.index ∧ e.index ≤ v.last + 1)
-    (hhs : s.rd.hs.isEmpty = false → HsKeeps v.hs s.rd.hs ∧ v.hs.commit ≤ s.rd.hs.commit)
-    (hnt : ∀ p ∈ s.owed, NotTakenBack s.rd.ents p) : Safe (exec c s .walWrite) := by
-  simp only [exec]
-  split
-  · exact safe_of_eq rfl (fun _ hp => hp) h
-  · intro k
-    show ∃ v', replay (s.disk.write _) k = some v' ∧ ∀ p ∈ s.owed, p.holds v'
-    rw [replay_write]
-    split
-    · exact h k
-    · obtain ⟨v0, hv0, hp0⟩ := h s.disk.buffered.length
-      have hv0' : replayRecs s.disk.all s.disk.files = some v0 := by rw [← all_eq_image]; exact hv0
-      have hvv : v0 = v := by rw [hv] at hv0'; exact (Option.some.inj hv0').symm
-      subst hvv
-      cases hemp : s.rd.hs.isEmpty with
-      | true =>
-        obtain ⟨v', hv', hk, _⟩ := save_keeps_promises hv s.rd.ents hch hfirst none (by intro h hh; simp at hh) (k - s.disk.buffered.length)
-        exact ⟨v', by simpa [Option.toList] using hv', fun p hp => hk p (hp0 p hp) (hnt p hp)⟩
-      | false =>
-        obtain ⟨v', hv', hk, _⟩ := save_keeps_promises hv s.rd.ents hch hfirst (some s.rd.hs)
-          (by intro h hh; simp at hh; subst hh; exact hhs hemp) (k - s.disk.buffered.length)
-        exact ⟨v', by simpa [Option.toList] using hv', fun p hp => hk p (hp0 p hp) (hnt p hp)⟩
-
 /-- **externalising keeps `Safe` exactly when the new promises are kept by every crash image at that moment** (`send`, `publishEntries`,
     `publishSnapshot` change nothing on disk) -/
 theorem externalise_safe (c : Cfg) (s : State) (st : Stmt) (hst : st = .send ∨ st = .publish ∨ st = .publishSnap) (h : Safe s)
